@@ -42,7 +42,7 @@ func C12(c *run.Ctx) {
 	c.Need("c12_in_policy_accepted", 1)
 	maxSeg := 3
 	if !c.Quick() {
-		maxSeg = 5
+		maxSeg = 6
 	}
 	c.Exhaustive = true
 	strs := segStrings(maxSeg)
